@@ -142,6 +142,17 @@ def evaluate(case) -> Outcome:
             out.add(f"C08/find-as-sid/raises/{exc_sig(got_sid)}", f"FindInList(L).find({s!r}, as_sid=True) raised {got_sid!r}")
         elif [str(x) for x in got_sid] != got or any(not isinstance(x, Sid) for x in got_sid):
             out.add("C08/as-sid-differs-from-strings", f"find({s!r}): as_sid=True {[str(x) for x in got_sid]} vs as_sid=False {got}")
+        # a Sid OBJECT built from the search string (when it is typed and carries no query) is the same search
+        if "?" not in s:
+            so = Sid(s)
+            if so and str(so) == s:
+                ok3, got_obj = call(lambda: list(FindInList(list(L)).find(so, as_sid=False)))
+                out.evaluations += 1
+                if not ok3:
+                    out.add(f"C08/find-sid-object/raises/{exc_sig(got_obj)}", f"FindInList(L).find(Sid({s!r})) raised {got_obj!r}")
+                elif sorted(got_obj) != sorted(got):
+                    out.add("C08/find-sid-object-differs-from-string", f"find(Sid({s!r})) = {sorted(got_obj)} but find({s!r}) = {sorted(got)}")
+                out.label("sid-object-search")
         # weak invariants: results are entries, each once
         cnt = Counter(got)
         if any(c > 1 for c in cnt.values()):
